@@ -80,7 +80,14 @@ def _run(fx, it, content, whole_mode, whole_enc, fit_single=None, chunk_version=
         rec['fits'].append((id(segments), r))
         return r
 
-    def _encode(segments, error=None, version=None, mask=None, eci=None, boost_error=None, sa_info=None):
+    def _encode(*a_, **k_):
+        ref = ['segments', 'error', 'version', 'mask', 'eci', 'boost_error', 'sa_info']
+        vals = dict(zip(ref, a_))
+        vals.update(k_)
+        if set(vals) - set(ref) or 'segments' not in vals:
+            raise Unknown(f'encode_sequence calls _encode with {sorted(set(vals) - set(ref)) or "no segments"}: the internal interface changed, the call cannot be read')
+        segments, error, version, mask = vals['segments'], vals.get('error'), vals.get('version'), vals.get('mask')
+        eci, boost_error, sa_info = vals.get('eci'), vals.get('boost_error'), vals.get('sa_info')
         first = segments.segments[0]
         rec['keep'].append(segments)
         rec['_encode'].append(dict(segid=id(segments), what=seg_of.get(id(segments), seg_of.get(id(first))), error=error, version=version, mask=mask,
